@@ -399,7 +399,7 @@ MicroSteps(f, stk) ==
                         \cup {<<"extend", <<<<"x", <<"b", "+", C(c), K(1)>>>>>>>> : c \in {"x"} \cap N}
     [] f = "wextend" -> {<<"wextend", <<<<"w", "sum", c, 0>>>>, <<"o">>, <<>>, <<>>>> : c \in {"y"} \cap N}
                         \cup {<<"wextend", <<<<"w", "_size", "", 0>>>>, <<"o">>, <<>>, <<>>>>}
-    [] f = "stack"   -> IF n < 2 THEN {<<"dup">>} ELSE {<<"swap">>}
+    [] f = "stack"   -> IF n < 2 THEN {<<"dup">>} \cup {<<"table", t>> : t \in TabNames \ {"t1"}} ELSE {<<"swap">>}
     [] f = "binary"  -> IF n >= 2 THEN {<<"concat", "">>, <<"join", "INNER", <<<<"o", "o">>>>>>} ELSE {}
     \* an extend that RE-ORDERS a column (o := x - o) or makes a new ordering column, then windows ordered by it
     [] f = "xo"      -> {<<"extend", <<<<t, <<"b", "-", C("x"), C("o")>>>>>>>> : t \in {"o", "z"}}
@@ -440,6 +440,10 @@ BadCandidates(stk) ==
   LET n == Len(stk) cols == stk[n].cols N == KindCols(cols, "n") IN
   {<<"extend", <<<<"z", <<"b", "+", C("nosuch"), K(1)>>>>>>>>}
   \cup {<<"extend", <<<<"z", <<"b", "+", C(c), K(1)>>>>, <<"w", <<"b", "+", C("z"), K(1)>>>>>>>> : c \in N}
+  \* the same with the USING assignment listed first, and re-assigning an existing column another assignment reads
+  \cup {<<"extend", <<<<"w", <<"b", "+", C("z"), K(1)>>>>, <<"z", <<"b", "+", C(c), K(1)>>>>>>>> : c \in N}
+  \cup {<<"extend", <<<<"w", <<"b", "*", C(p[1]), K(2)>>>>, <<p[1], <<"b", "+", C(p[2]), K(1)>>>>>>>> : p \in {q \in Pairs(N) : q[1] # "w"}}
+  \cup {<<"project", <<<<"w", "max", p[1]>>, <<p[1], "min", p[2]>>>>, <<>>>> : p \in {q \in Pairs(N) : q[1] # "w"}}
   \cup {<<"wextend", <<<<c, "sum", c, 0>>>>, <<c>>, <<>>, <<>>>> : c \in N}
   \cup {<<"wextend", <<<<c, "cumsum", c, 0>>>>, <<>>, <<c>>, <<>>>> : c \in N}
   \cup {<<"wextend", <<<<"w", "cumsum", c, 0>>>>, <<>>, <<>>, <<>>>> : c \in N}
@@ -463,6 +467,10 @@ BadCandidates(stk) ==
                         <<"concat", cols[1]>>, <<"concat", "">>, <<"concat", "src">>}
                        \cup {<<"joinc", jt, <<<<c, c>>>>>> : jt \in {"INNER", "LEFT"}, c \in SetOf(stk[n - 1].cols) \cap SetOf(cols)}
                        \cup {<<"joinc", "INNER", <<>>>>}
+                       \cup UNION {UNION {{<<"joinc", "INNER", <<<<c, c>>, <<a, b>>>>>> :
+                                               a \in {x \in SetOf(stk[n - 1].cols) \ SetOf(cols) : Kind[x] = Kind[b]}} :
+                                             b \in (SetOf(stk[n - 1].cols) \cap SetOf(cols)) \ {c}} :
+                                     c \in SetOf(stk[n - 1].cols) \cap SetOf(cols)}
         ELSE {})
 
 \* ------------------------------------------------------------------ the machine
@@ -535,7 +543,7 @@ Case == [inp |-> inp, prog |-> prog, hist |-> hist, alt |-> ahist, kinds |-> Kin
          used |-> IF Len(dstack) = 0 THEN {} ELSE UsedOf(Top(dstack)),
          dag |-> IF Len(bstack) = 0 THEN <<>> ELSE DagShape(Top(bstack))]
 EmitWanted ==
-  EmitSel = "all" \/ (Len(stack) = 1 /\ \E i \in 1..Len(prog) : prog[i][1] = "dup")
+  EmitSel = "all" \/ (Len(stack) = 1 /\ \E i \in 1..Len(prog) : prog[i][1] \in {"dup", "table"})
 Emit == (phase = "prog" /\ Len(prog) = MaxSteps /\ EmitWanted /\ (EmitOneIn = 1 \/ RandomElement(1..EmitOneIn) = 1))
           => PrintT("CASE " \o ToJson(Case))
 
